@@ -136,6 +136,11 @@ def _read_map_fits(healsparse_class, filename, nside_coverage=None, pixels=None,
                                                        degrade_nside, reduction,
                                                        weightfile)
 
+        if isinstance(sparse_map, np.ndarray) and not sparse_map.dtype.isnative:
+            # FITS data are big-endian; convert to the native byte order so that
+            # the map has the same data type as the map that was written.
+            sparse_map = sparse_map.astype(sparse_map.dtype.newbyteorder('='))
+
         healsparse_map = healsparse_class(cov_map=cov_map, sparse_map=sparse_map,
                                           nside_sparse=nside_sparse, primary=primary, sentinel=sentinel,
                                           metadata=hdr)
